@@ -11,6 +11,7 @@ import (
 	"context"
 	"errors"
 	"fmt"
+	"regexp"
 	goruntime "runtime"
 	"sort"
 	"strings"
@@ -51,13 +52,14 @@ func (c10) Info(tier string) fw.Info {
 		Rule: "for each of the listed programs (straight-line, empty and working infinite loops, recursion, try/catch with throws, blocking builtin, 1-4 spawned cores, a core failing; multi-module programs: work in the global initialisers of imported modules - one level, nested, diamond, an initialiser failing by itself (interpreter only) -, the same / different / several builtins imported by several modules, the loop inside an imported function, cores spawned on imported functions; fatal errors - index, division by zero, uncaught throw, unwrap of none, call stack overflow - raised while functions with names of 5/10/14/18/27 characters are on the call stack: direct, chains, recursion, function literals, inside try, in functions of a module with a long name, in a spawned core next to finite and next to never-ending cores; builtin members that loop over their receiver - sort on int/float/str lists in nine initial orders, contains, join, concat, insert, remove, push_front, pop_front, to_json, split, replace, repeat, substring, compare_lev, parse_json, rev, diff, to_range, iteration over lists, strings and reversed ranges - finite, inside infinite loops and on several cores; per seed: random-list sort programs and fatal-error programs with random name lengths 8..48, text carried in the payload) and each backend, the context is cancelled at the k-th poll for every k in 1..Kmax (VM: every k; interpreter: every k up to 60, then strides) by the host's cancel(); the same programs and backends again with the context ended the other ways a host ends it - deadline expired (Err()=DeadlineExceeded; quick: a ladder of k = 1,2,3,5,8,.. kmax, kmax+1 and three seed-chosen k, thorough: every k), cancel(cause) and deadline-with-cause (every third rung); a poll is a call of Done() or Err(); " +
 			"index expressions at the edges of their base (families2.go): empty / drained / one-element / three-element / nested-empty lists and empty / three-character strings indexed with -1, -(len+2), len and the valid wrapping indices, as value, as assignment target and as compound-assignment target, both back ends, per seed further members of the product; " +
 			"spawn sequences (VM): main spawns short jobs and one long-running core (endless blocking-builtin loop, endless stepping loop, long finite) in six orders, with and without waiting for the jobs through globals; these and the listed programs with several finite cores run again with the moment of cancellation given by an event - the host ends the context once n = 1..N cores have finished and the wait has collected them - under two schedules: free, and 'settle' (every spawn happens after the wait has collected the cores finished so far); " +
-			"oracle: wait/run returns a termination interrupt or the program's own outcome (known from an uncancelled run when the program is finite; a program with a core that never finishes has none: the wait must not return while the context is alive); every core stops within B=10000 steps after the cancelling poll (step hook); after return no goroutine of the run has a frame in Core.Run (stack samples until 5 identical ones); the host calls (NewVM, Wait) return: a run in which no core steps any more and every goroutine inside the VM is blocked on a lock or channel (the wait idling between polls) is cancelled by the monitor if its context is still alive and refutes the property if it stays in that state; race log empty. " +
+			"the repository's own blocking builtin (hostsleep.go): time.sleep(300 s) of the testing hosts of both back ends - plain, inside a catch handler, on three cores at once - cancelled at each of the first polls of the sleep; while the context is alive the period between two polls is watched and the run is reported only when three consecutive gaps each exceeded 1 s (the builtin's period is 10 ms whatever the duration: a period that grows with the duration slept makes the stop latency a function of a program input); " +
+			"oracle: wait/run returns a termination interrupt or the program's own outcome (known from an uncancelled run when the program is finite; a program with a core that never finishes has none: the wait must not return while the context is alive); every core stops within B=10000 steps after the cancelling poll (step hook); after return no goroutine of the run has a frame in Core.Run (stack samples until 5 identical ones; a core inside a timed sleep of a host builtin is a transient state and sampled again); the host calls (NewVM, Wait) return: a run in which no core steps any more and every goroutine inside the VM is blocked on a lock or channel (the wait idling between polls) is cancelled by the monitor if its context is still alive and refutes the property if it stays in that state; race log empty. " +
 			"non-trivial = the context actually ended during the run; distinct = (program, backend, end mode, k)",
 		Assumptions: []string{
 			"host builtins that ignore the context are the host's responsibility (the harness builtin vsleep polls it)",
 			"a host call (NewVM, Wait) that neither returns nor steps is decided by goroutine state samples (50 consecutive consistent snapshots in which every goroutine inside the VM runtime is blocked on a lock or channel, the wait idling in its poll sleep, and the step counter does not move), otherwise by the per-case watchdog (inconclusive)",
 		},
-		Exhaustive:   true,
+		Exhaustive: true,
 		// a case takes milliseconds; a tree whose Go code spins between two polls costs this period per case
 		CaseTimeoutS: 30,
 		BatchSize:    60,
@@ -91,6 +93,9 @@ type program struct {
 	// eventOnly: the program only runs in eventCases (its subject is the order of spawns and exits, which
 	// a cancellation within the first polls never reaches)
 	eventOnly bool
+	// hostSleep: the program sits in the repository's own blocking builtin time.sleep (hostsleep.go):
+	// the period between its polls of the context is watched
+	hostSleep bool
 }
 
 // sources: all modules of the program, the entry module under the name "main".
@@ -122,7 +127,7 @@ func (p program) render() string {
 
 // programs: the single-module programs followed by the multi-module ones (modules.go). Payloads
 // refer to programs by index or name: only ever append.
-var programs = append(append(append(append(append(append([]program{}, singlePrograms...), modulePrograms...), fatalPrograms...), memberPrograms...), indexPrograms...), seqPrograms...)
+var programs = append(append(append(append(append(append(append([]program{}, singlePrograms...), modulePrograms...), fatalPrograms...), memberPrograms...), indexPrograms...), seqPrograms...), hostSleepPrograms...)
 
 var singlePrograms = []program{
 	{name: "straight", src: `fn main() { let a = 1; let b = a + 2; println(b); println(b * 2); }`, kmaxVM: 6, kmaxTree: 40},
@@ -381,6 +386,15 @@ type countingCtx struct {
 	ch     chan struct{}
 	closed atomic.Bool
 	ended  atomic.Pointer[context.Context] // set before closed
+	// gap watch (programs that sit in a blocking host builtin, hostsleep.go): the time between two
+	// consecutive polls while the context is alive. bigRun = current run of consecutive gaps longer
+	// than pollGapBound; gapEnded: the context ended itself because bigRun reached pollGapRun.
+	gapWatch bool
+	last     time.Time
+	gaps     int64
+	bigRun   int
+	maxGap   time.Duration
+	gapEnded bool
 }
 
 func newCountingCtx(k int64) *countingCtx { return newCountingCtxMode(k, endCancel) }
@@ -420,6 +434,27 @@ func (c *countingCtx) end(mode string) {
 func (c *countingCtx) poll() {
 	if c.armed && !c.closed.Load() {
 		c.polls++
+		if c.gapWatch {
+			now := time.Now()
+			if !c.last.IsZero() {
+				gap := now.Sub(c.last)
+				c.gaps++
+				if gap > c.maxGap {
+					c.maxGap = gap
+				}
+				if gap > pollGapBound {
+					c.bigRun++
+				} else {
+					c.bigRun = 0
+				}
+				if c.bigRun >= pollGapRun {
+					c.gapEnded = true
+					c.end(c.mode)
+					return
+				}
+			}
+			c.last = now
+		}
 		if c.polls >= c.k {
 			c.end(c.mode)
 		}
@@ -608,10 +643,22 @@ func coreRunGoroutines() (n int, blockedDump string) {
 	return
 }
 
+// asleepRe: header of a goroutine in time.Sleep.
+var asleepRe = regexp.MustCompile(`(?m)^goroutine \d+ \[sleep[,\]]`)
+
 func stableCoreGoroutines() (n int, dump string, stable bool) {
 	last, same := -1, 0
 	for i := 0; i < 400; i++ {
 		n, dump = coreRunGoroutines()
+		if asleepRe.MatchString(dump) {
+			// a core inside a timed sleep of a host builtin (time.sleep of the repository's testing hosts
+			// sleeps 10 ms between two looks at the context) wakes by itself and then sees the ended
+			// context: a transient state, not "left behind" - sample again
+			last, same = -1, 0
+			goruntime.Gosched()
+			time.Sleep(500 * time.Microsecond)
+			continue
+		}
 		if n == last {
 			same++
 			if same >= 5 {
@@ -822,15 +869,26 @@ func runTree(p Payload, pg program, ao drive.AnalyzeOut, src drive.Sources, res 
 		own = ref.out
 	}
 	cc := newCountingCtxMode(p.K, p.end())
+	cc.gapWatch = pg.hostSleep
 	cc.arm()
 	tr := hostRunTree(ao, src, cc, 0)
 	out, exceeded, after := tr.out, tr.exceeded, tr.after
 	res.Nontrivial = cc.closed.Load()
 	cc.mu.Lock()
 	polls := cc.polls
+	gapEnded, gapText := cc.gapEnded, cc.gapDescribe()
+	if pg.hostSleep {
+		res.Obs = map[string]int64{"poll_gaps": cc.gaps}
+	}
 	cc.mu.Unlock()
-	res.Obs = map[string]int64{"polls": polls, "steps_after_cancel": after}
+	if res.Obs == nil {
+		res.Obs = map[string]int64{}
+	}
+	res.Obs["polls"], res.Obs["steps_after_cancel"] = polls, after
 	switch {
+	case gapEnded:
+		res.Verdict, res.Sig = fw.Violated, "tree:blocking-builtin-poll-period"
+		res.Why = fmt.Sprintf("the interpreter host's blocking builtin looks at the context too rarely for a cancellation to stop it promptly: %s (program %s)", gapText, pg.name)
 	case tr.spinning != "":
 		res.Verdict, res.Sig = fw.Violated, "tree:run-never-returns"
 		res.Why = fmt.Sprintf("homescript.Run does not return: the interpreter executes no step any more while Go code of the repository keeps running (%s), for more than %.0f s of processor time after the context %s (program %s)", tr.spinning, spinCPU, cc.describe(), pg.name)
@@ -902,6 +960,7 @@ func runVM(p Payload, pg program, ao drive.AnalyzeOut, src drive.Sources, res fw
 	// its own case) are not charged to this run
 	base, _ := coreRunGoroutines()
 	cc := newCountingCtxMode(p.K, p.end())
+	cc.gapWatch = pg.hostSleep
 	if p.ArmEarly {
 		cc.arm()
 	}
@@ -930,6 +989,15 @@ func runVM(p Payload, pg program, ao drive.AnalyzeOut, src drive.Sources, res fw
 	if newVMPanic != "" {
 		fail("vm:newvm-panic:"+util.NormPanic(newVMPanic), fmt.Sprintf("NewVM panicked on the host's goroutine: %s (program %s, k=%d)", newVMPanic, pg.name, p.K))
 		return res
+	}
+	cc.mu.Lock()
+	gapEnded, gapText := cc.gapEnded, cc.gapDescribe()
+	if pg.hostSleep {
+		res.Obs["poll_gaps"] = cc.gaps
+	}
+	cc.mu.Unlock()
+	if gapEnded {
+		fail("vm:blocking-builtin-poll-period", fmt.Sprintf("the VM host's blocking builtin looks at the context too rarely for a cancellation to stop it promptly: %s (program %s)", gapText, pg.name))
 	}
 	switch {
 	case out.Class == "deadlock":
